@@ -12,4 +12,5 @@ TARGETS = {
     "c13_tbsearch": dict(flavours=["seq", "fast"], src=["harness/c13_tbsearch.cpp"], net=1),
     "c04_mates": dict(flavours=["seq", "fast"], src=["harness/c04_mates.cpp"], net=1),
     "c04_mates_net0": dict(flavours=["fast"], src=["harness/c04_mates.cpp"], net=0),
+    "c03_results": dict(flavours=["seq", "fast"], src=["harness/c03_results.cpp"], net=1),
 }
